@@ -4,7 +4,7 @@ import lib, e2, gen_strings, gen_selectors, campaign
 from lib import Check, s_str
 
 PID = 'C20'
-CONE = ['Regex.v', 'RegexFacts.v', 'Diag.v', 'DiagFacts.v', 'Parser.v', 'gen/RegexGen.v']
+CONE = ['Regex.v', 'RegexFacts.v', 'Diag.v', 'DiagFacts.v', 'LineFacts.v', 'Parser.v', 'gen/RegexGen.v']
 
 
 def spec_line_col(s, i):
@@ -101,6 +101,14 @@ def run(tier, seed):
             j = rnd.randrange(len(s) + 1)
             s = s[:j] + rnd.choice(['\n', '\r\n', '\r', ' \n ', '\n\n']) + s[j:]
         pats.append((s, None))
+    # errors inside a custom selector's definition are reported against the definition's text
+    for _ in range(300 if tier == 'quick' else 6000):
+        d = gen_strings.mutate(rnd, sg.selector(1))
+        if rnd.random() < 0.7:
+            j = rnd.randrange(len(d) + 1)
+            d = d[:j] + rnd.choice(['\n', '\r\n', '\n\n', ',\n', '\n  ']) + d[j:]
+        outer = rnd.choice([':--c', 'main :--c', 'a > :--c, b', ':is(:--c)', 'p:--c\n', ':--d'])
+        pats.append((outer, {':--c': d, ':--d': 'x :--c'}))
     nb2 = 0
     for r in e2.run(pats):
         why = e2.agree(r)
@@ -110,12 +118,15 @@ def run(tier, seed):
                 ck.broken.append(f'correspondence compile({r["pattern"]!r}): {why}')
         real = r['real']
         if real[0] == 'sse' and real[1] is not None:
-            p2 = r['pattern'].replace('\x00', '�')
-            ok = any(spec_line_col(p2, i) == (real[1], real[2]) and context_ok(p2, i, real[3], real[1], real[2]) for i in range(len(p2) + 1))
+            texts = [r['pattern']] + (list(r['custom'].values()) if r.get('custom') else [])
+            ok = False
+            for p2 in texts:
+                p2 = p2.replace('\x00', '�')
+                ok = ok or any(spec_line_col(p2, i) == (real[1], real[2]) and context_ok(p2, i, real[3], real[1], real[2]) for i in range(len(p2) + 1))
             ck.count(('sse', real[1] > 1, real[2] > 1))
             if not ok:
                 ck.violation(f'compile({r["pattern"]!r}): SelectorSyntaxError line {real[1]} col {real[2]} is not a position of the pattern '
-                             'or the context has no caret under it', {'pattern': r['pattern'], 'line': real[1], 'col': real[2], 'context': real[3]})
+                             '(nor of a custom definition) or the context has no caret under it', {'pattern': r['pattern'], 'custom': r.get('custom'), 'line': real[1], 'col': real[2], 'context': real[3]})
     # ---- (3) DEBUG changes no result
     for sc in campaign.build(rnd, 'ns', 30 if tier == 'quick' else 600, 0) + campaign.build(rnd, 'core', 20 if tier == 'quick' else 400, 0):
         pools = gen_selectors.pools_from_soup(sc.top)
